@@ -26,6 +26,10 @@ pub struct ClientSpec {
     /// out while the client still believes in it)
     #[serde(default)]
     pub mute_after_connect_ms: u32,
+    /// the client application calls disconnect() right after submitting its last (Reliable) echo packet - "on
+    /// Connect: say something, then leave gracefully"
+    #[serde(default)]
+    pub leave_after_last_echo: bool,
 }
 
 #[derive(Clone, Debug, Serialize, Deserialize)]
@@ -108,8 +112,9 @@ fn client_strategy() -> impl Strategy<Value = ClientSpec> {
         prop_oneof![2 => Just(0u8), 1 => 1u8..60],
         prop_oneof![Just(1448u16), Just(4000u16), 5u16..6000],
         prop_oneof![4 => Just(0u32), 1 => 1_000u32..30_000],
+        prop_oneof![3 => Just(false), 1 => Just(true)],
     )
-        .prop_map(|(cfg, (l0, l1), (f0, f1), start_tick, echoes, echo_size, bulk, bulk_size, mute_after_connect_ms)| ClientSpec { cfg, latency_us: [l0, l1], fates: [f0, f1], start_tick, echoes, echo_size, bulk, bulk_size, mute_after_connect_ms })
+        .prop_map(|(cfg, (l0, l1), (f0, f1), start_tick, echoes, echo_size, bulk, bulk_size, mute_after_connect_ms, leave_after_last_echo)| ClientSpec { cfg, latency_us: [l0, l1], fates: [f0, f1], start_tick, echoes, echo_size, bulk, bulk_size, mute_after_connect_ms, leave_after_last_echo })
 }
 
 fn forge_strategy() -> impl Strategy<Value = Forge> {
@@ -206,7 +211,7 @@ impl Check for C07 {
     }
 
     fn rule(&self) -> String {
-        "case = World with a real Server and 1-4 (quick) real Clients whose configurations are generated independently (compatible or not; receive allocations and rates of 2^32 and beyond included, which are advertised saturated), each on its own link with per-datagram fates for the handshake frames (delay up to 3 s, drop, duplicate up to 5 s apart, corrupt), starting at generated ticks (simultaneous handshakes), plus late network duplicates of handshake frames that really travelled (never counted as forgeries), clients whose frames are lost for 1-30 s after they connected while a third of the servers time silent peers out after 1.5-4.5 s, and forged handshake / disconnect frames injected at generated moments with spoofed source addresses (a client's address towards the server, the server's address towards a client) carrying random nonces, genuine nonces +-1, the genuine current nonce, or the nonce of an earlier attempt. After Connect each client runs an ordered echo stream through the server, and the server may push a burst of Reliable packets larger than the client's advertised receive allocation. Monitor oracle over wire and events: server Connect(a) only after an ACK from a carrying the nonce of the latest SYN-ACK sent to a was delivered; client Connect only after a SYN-ACK echoing its SYN nonce was delivered; at most one Connect per client and per server-side connection; the server's Connect never precedes the client's, and once a client is connected and frames are delivered promptly the server reports its Connect within three SYN-ACK repeat intervals (as long as its 22 s handshake budget and the client's timeout allow); no server Connect later than the 22 s budget of its handshake (a stale ACK creates nothing, with handshake errors reported or not); first data frame ids equal the advertised nonces; every connection the server reports was completed with the server nonce the client accepted (a connection is never re-created behind a living client's back); refusals carry the error the documented rule demands and the client reports the same error (ServerFull only when the server's limits are below the number of clients: a client is never refused on account of its own pending entry); no Error event on a client that has connected unless it is a Timeout; echo streams arrive in order without gaps for Reliable packets; bytes per second on the wire stay within min(local max_send_rate, peer max_receive_rate); the bytes the server has outstanding towards a client (fragment-rounded, judged from the wire and the acks delivered) never exceed the max_receive_alloc that client advertised. Non-trivial = at least one handshake frame was lost, duplicated, corrupted or forged. Distinct = distinct serialised case.".into()
+        "case = World with a real Server and 1-4 (quick) real Clients whose configurations are generated independently (compatible or not; receive allocations and rates of 2^32 and beyond included, which are advertised saturated), each on its own link with per-datagram fates for the handshake frames (delay up to 3 s, drop, duplicate up to 5 s apart, corrupt), starting at generated ticks (simultaneous handshakes), plus late network duplicates of handshake frames that really travelled (never counted as forgeries), clients that call disconnect() right after submitting their last Reliable packet (one in four), clients whose frames are lost for 1-30 s after they connected while a third of the servers time silent peers out after 1.5-4.5 s, and forged handshake / disconnect frames injected at generated moments with spoofed source addresses (a client's address towards the server, the server's address towards a client) carrying random nonces, genuine nonces +-1, the genuine current nonce, or the nonce of an earlier attempt. After Connect each client runs an ordered echo stream through the server, and the server may push a burst of Reliable packets larger than the client's advertised receive allocation. Monitor oracle over wire and events: server Connect(a) only after an ACK from a carrying the nonce of the latest SYN-ACK sent to a was delivered; client Connect only after a SYN-ACK echoing its SYN nonce was delivered; at most one Connect per client and per server-side connection; the server's Connect never precedes the client's, and once a client is connected and frames are delivered promptly the server reports its Connect within three SYN-ACK repeat intervals (as long as its 22 s handshake budget and the client's timeout allow); no server Connect later than the 22 s budget of its handshake (a stale ACK creates nothing, with handshake errors reported or not); first data frame ids equal the advertised nonces; every connection the server reports was completed with the server nonce the client accepted (a connection is never re-created behind a living client's back); refusals carry the error the documented rule demands and the client reports the same error (ServerFull only when the server's limits are below the number of clients: a client is never refused on account of its own pending entry); no Error event on a client that has connected unless it is a Timeout; echo streams arrive in order without gaps for Reliable packets; bytes per second on the wire stay within min(local max_send_rate, peer max_receive_rate); the bytes the server has outstanding towards a client (fragment-rounded, judged from the wire and the acks delivered) never exceed the max_receive_alloc that client advertised. Non-trivial = at least one handshake frame was lost, duplicated, corrupted or forged. Distinct = distinct serialised case.".into()
     }
 
     fn assumptions(&self) -> Vec<String> {
@@ -399,6 +404,11 @@ impl Check for C07 {
                         w.client_send(ci, world_payload(c.seed, k as u8, sent_echo[k], size), 1, 3);
                     }
                     sent_echo[k] += 1;
+                    if c.clients[k].leave_after_last_echo && size >= 5 && sent_echo[k] == c.clients[k].echoes as u32 {
+                        if let Some(cl) = w.clients[ci].client.as_mut() {
+                            cl.disconnect();
+                        }
+                    }
                     w.flush_client(ci);
                 }
             }
@@ -559,7 +569,9 @@ impl Check for C07 {
                     let refused = w.wire.iter().any(|r| r.from == w.server_addr && r.to == a && matches!(Frame::read(&r.bytes), Some(Frame::HandshakeErrorFrame(_))));
                     let client_ended = slot.events.iter().find(|(_, _, e)| matches!(e, CEv::Disconnect | CEv::Error(_))).map(|p| p.1);
                     let server_still_trying = first_synack.map_or(false, |t| need <= t + 20_000_000);
-                    if w.now_us >= need && server_still_trying && !refused && need <= tc + 18_000_000 && client_ended.map_or(true, |t| t > need) {
+                    // (a client that has left - its own Disconnect request is on the wire - no longer completes handshakes)
+                    let client_left = w.wire.iter().any(|r| r.from == a && r.to == w.server_addr && r.t_us <= need && r.bytes.first() == Some(&4));
+                    if w.now_us >= need && server_still_trying && !client_left && !refused && need <= tc + 18_000_000 && client_ended.map_or(true, |t| t > need) {
                         return CaseResult::fail(
                             "oracle:c07:server_never_connected",
                             format!("client {k} reported Connect at t={tc} us; from t={t0} us on every datagram between it and the server was delivered promptly, yet by t={} us the server had not reported Connect({a}) (first SYN-ACK at {:?} us, SYN-ACK repeats are 2 s apart and an active client re-acknowledges them)", w.now_us, first_synack),
